@@ -60,8 +60,25 @@ func c17slow(c *core.Ctx) {
 			wrong.Add(1)
 		}
 	}
+	// while the slow action runs, 70 000 further callers pile up behind it (more waiters
+	// at once than a 16-bit field can count): all of them must wait and get the results
+	var crowd sync.WaitGroup
+	var crowdBad atomic.Int64
+	crowdStart := make(chan struct{})
+	for i := 0; i < 70000; i++ {
+		crowd.Add(1)
+		go func() {
+			defer crowd.Done()
+			<-crowdStart
+			a, b := o.Do(func() (int64, string) { inv.Add(1); return -1, "crowd" })
+			if a != 77 || b != "slow" || completed != 1 {
+				crowdBad.Add(1)
+			}
+		}()
+	}
 	wg.Add(1)
 	go call(0)
+	time.AfterFunc(50*time.Millisecond, func() { close(crowdStart) })
 	// the first waiters arrive within milliseconds (they wait for almost the whole
 	// action), the others spread over its lifetime
 	for i := 1; i <= 8; i++ {
@@ -76,7 +93,29 @@ func c17slow(c *core.Ctx) {
 	if !joinOrDeadlock(c, &wg, "Once2:slow-action", fmt.Sprintf("Do calls made while an action that takes %v runs", d), nil) {
 		return
 	}
+	crowd.Wait()
 	c.Count("rounds_slow_action", 1)
+	if n := crowdBad.Load(); n != 0 {
+		c.Violate("Once2:returned-before-completion[70000 callers at once]", fmt.Sprintf("%d of 70000 Do calls that piled up behind a running action (taking %v) returned before it had completed or with other values", n, d), nil)
+		return
+	}
+	// ... and afterwards 2^30 + 1000 further Do calls on the same value (a counter of calls
+	// must not run into whatever marks the value as done)
+	extraInv := 0
+	calls := 1 << 20 // quick tier; the thorough tier makes 2^30 + 1000 calls (about 10 s)
+	if c.Tier == "thorough" {
+		calls = 1<<30 + 1000
+	}
+	if p := c.Param["once_marathon_calls"]; p != "" {
+		fmt.Sscan(p, &calls)
+	}
+	for i := 0; i < calls; i++ {
+		if a, _ := o.Do(func() (int64, string) { extraInv++; return -2, "again" }); a != 77 {
+			c.Violate("Once2:results[after many calls]", fmt.Sprintf("Do call number %d after the invocation returned %d instead of the stored 77 (%d further functions were invoked)", i+1, a, extraInv), nil)
+			return
+		}
+	}
+	c.Count("do_calls_after_completion_on_one_value", int64(calls))
 	if n := inv.Load(); n != 1 {
 		c.Violate("Once2:invocations[slow action]", fmt.Sprintf("%d functions were invoked while the first action (taking %v) was running", n, d), nil)
 		return
